@@ -166,6 +166,7 @@ func VerifC19Effect() {
 			// an analysis under the previous settings has already run (include cache, workspace
 			// caches and per-document trees are warm) when the new configuration arrives
 			_ = f.diagnostics()
+			_, _ = f.s.Format(f.ctx, &protocol.DocumentFormattingParams{TextDocument: protocol.TextDocumentIdentifier{URI: f.uri}})
 		}
 		f.refresh(payload)
 	}
